@@ -1,7 +1,7 @@
 (* C03 — Answers depend on the circuit, not on what was asked before. *)
 From Coq Require Import ZArith List Bool.
 Import ListNotations.
-From QCE Require Import Base.Prelude Core.Model Core.Run C03.Memo C03.Model C03.Proofs.
+From QCE Require Import Base.Prelude Core.Model Core.Run Core.EnvIndep C03.Memo C03.Model C03.Proofs.
 
 (* the (memo-free) model: the answer to an observation after any history equals the answer after the same mutations with all
    earlier observations erased *)
@@ -34,3 +34,11 @@ Print Assumptions C03_model_history_independent.
 Print Assumptions C03_model_answers.
 Print Assumptions C03_memo_sound.
 Print Assumptions C03_memo_history_independent.
+
+(* a circuit built -- and unrolled -- under settings e1 and then observed under settings e2 reports exactly what a circuit built
+   under e2 reports: building never consults the settings (Core/EnvIndep.v) *)
+Theorem C03_settings_change_is_reflected_by_structure_built_earlier : forall e1 e2 p,
+  model_obs e2 (run_prog e1 p) = model_obs e2 (run_prog e2 p)
+  /\ model_obs e2 (apply_modifiers e1 1 (run_prog e1 p)) = model_obs e2 (apply_modifiers e2 1 (run_prog e2 p)).
+Proof. exact observed_after_change. Qed.
+Print Assumptions C03_settings_change_is_reflected_by_structure_built_earlier.
